@@ -265,8 +265,15 @@ fn shape_compatible(a: &[PathElem], b: &[PathElem]) -> bool {
     true
 }
 
+/// raw input bytes (fuzzer artifacts) with the fixed path family
+pub fn oracle_raw(case: &[u8], obs: &mut Obs) -> Result<(), Fail> {
+    oracle(&join_case(case, &[]), obs)
+}
+
 pub fn subs() -> Vec<Sub<'static>> {
-    ["mutated", "sweep"].iter().map(|n| Sub { name: n, oracle: &oracle, minimise_bytes: false }).collect()
+    let mut v: Vec<Sub<'static>> = ["mutated", "sweep"].iter().map(|n| Sub { name: n, oracle: &oracle, minimise_bytes: false }).collect();
+    v.push(Sub { name: "fuzz-inputs", oracle: &oracle_raw, minimise_bytes: true });
+    v
 }
 
 fn doc_and_paths(src: &mut Src, p: &DocParams, stress: bool) -> (Vec<u8>, Vec<Vec<PathElem>>) {
